@@ -2,6 +2,7 @@
 from __future__ import annotations
 
 import itertools
+import json
 import math
 import warnings
 from fractions import Fraction
@@ -605,6 +606,34 @@ def check_case(case):
             if outs[0] != outs[1]:
                 return 'two runs with the same seed differ'
             return None
+        if kind == 'seeded-resume':
+            # reproducibility across save / load / resume: the same seeded history, with the results written out and
+            # read back by a new seeded simulation object in the middle, run twice, gives the same records; the
+            # trials after the load are drawn from the generator handed to the resuming object
+            from panqec.utils import NumpyEncoder
+            outs = []
+            k1, k2 = case['runs']
+            for _ in range(2):
+                code, em, dec, p = build(case['combo'])
+                sim = DirectSimulation(code, em, dec, p, verbose=False, rng=np.random.default_rng(case['seed']))
+                sim.run(k1)
+                data = json.loads(json.dumps(sim.get_results_to_save(), cls=NumpyEncoder))
+                code2, em2, dec2, p = build(case['combo'])
+                g = np.random.default_rng(case['seed'] + 1)
+                sim2 = DirectSimulation(code2, em2, dec2, p, verbose=False, rng=g)
+                sim2.load_results_from_dict(data)
+                sim2.run(k2)
+                res = sim2.results
+                lens = (len(res['effective_error']), len(res['success']), len(res['codespace']))
+                if res['n_runs'] != k1 + k2 or lens != (k1 + k2,) * 3:
+                    return f"run({k1}), save, load, run({k2}): n_runs={res['n_runs']} list lengths={lens}"
+                outs.append((b''.join(np.asarray(x).tobytes() for x in res['effective_error']),
+                             list(res['success']), list(res['codespace']),
+                             [np.asarray(c_[0]).tobytes() for c_ in dec2.calls]))
+            if outs[0] != outs[1]:
+                return (f'the seeded history run({k1}), save, load into a new seeded simulation, run({k2}) gives '
+                        f'different records when repeated')
+            return None
         if kind == 'seed-used':
             # the generator handed to the simulation is the ONLY source of randomness: two runs with equal
             # generators give equal records whatever state the global numpy / random generators are in, and
@@ -732,6 +761,8 @@ def oracle_cases(ctx, deep):
                       'interrupt_at': int(rng.integers(0, sum(runs2[:2])))})
         cases.append({'kind': 'same-seed', 'combo': combo, 'seed': int(rng.integers(0, 2 ** 31)),
                       'runs': [2, 1]})
+        cases.append({'kind': 'seeded-resume', 'combo': combo, 'seed': int(rng.integers(0, 2 ** 31)),
+                      'runs': [2, 6]})
     for combo in usable[:4]:
         cases.append({'kind': 'seed-used', 'combo': combo})
     cases.append({'kind': 'history', 'combo': usable[0], 'seed': 1, 'runs': [0]})
